@@ -344,3 +344,27 @@ def family(F, fn, depth=2):
             for c in F.callees(fid):
                 frontier.append((c, d + (0 if "{closure" in c else 1)))
     return out
+
+
+def summary_weight(F, fn, pat, depth=3, _memo=None):
+    """like call_weight, but a call to a function of the same source file that does not itself match `pat` contributes the
+    number of matching calls that function makes on each of its successful paths (its summary), provided that number is the
+    same on all of them; so splitting a function into private helpers does not change the count"""
+    memo = _memo if _memo is not None else {}
+    r = re.compile(pat)
+    w = collections.Counter()
+    for bi, callee, t in fn.calls():
+        if r.search(callee):
+            w[bi] += 1
+            continue
+        fx = t["f"].get("fnx", t["f"].get("fn"))
+        g = F.fns.get(fx)
+        if g is None or g.file != fn.file or depth <= 0 or g.id == fn.id:
+            continue
+        if g.id not in memo:
+            memo[g.id] = None       # recursion guard
+            memo[g.id] = count_on_paths(g, summary_weight(F, g, pat, depth - 1, memo), avoid=err_blocks(g) | panic_blocks(g))
+        mm = memo[g.id]
+        if mm and mm[0] == mm[1] and mm[0] != INF:
+            w[bi] += mm[0]
+    return lambda b: w.get(b, 0)
